@@ -64,7 +64,7 @@ def check(run):
     for r in run.rejections:
         if r["segment"] and r["segment"][-1].get("op") in ("RecvRace", "SendRace"):
             r["fact"] = True      # a free-running race of real goroutines: the recorded execution happened; it need not recur
-    run.cov.update(queued_cells=len(plan), timed_scenarios=len(timed), exhaustive=True,
+    run.cov.update(queued_cells=len(plan), timed_scenarios=len(timed), exhaustive=False,
                    distinct_nontrivial=distinct_count(segs, lambda s: True),
                    rule="queued receivers: every capacity 0..%d x fill x open/closed x limit 0..%d cell (+ cells with senders parked on the "
                         "channel); timed helpers: every combination of {capacity/fill, deadline kind (0, negative, 30ms, 5s, context cancelled "
@@ -72,7 +72,7 @@ def check(run):
                         "way are only checked for conservation" % (mc, ml))
     run.cov["samples"] = [evs[10], evs[-1]]
     run.assumptions += ["element type int", "real timers: scenarios are built so that the demanded outcome never depends on timing margins "
-                        "below 170ms; racing outcomes are accepted either way"]
+                        "below 900ms; racing outcomes are accepted either way"]
     def reexec(rej):
         return run_driver(run, "chans", rej["plan"], timeout=120)
     return finish(run, reexec=reexec)
